@@ -245,8 +245,63 @@ func tokenTableCase(o *out) {
 	o.extra["token_table_cells"] = influxql.VerifTokenCount() * 4
 }
 
+// c03FreshTrees: every parse builds its own tree from the text alone. A caller may rewrite the tree it was given
+// (strip parentheses, swap operands, change an operator); parsing the same text again still groups by the text.
+func c03FreshTrees(o *out, r *rng) {
+	texts := []string{"a + b * c", "(a + b) * c", "a = b + c AND d * e", "a OR b AND c OR d = e", "x * (y + z) - 1", "-(a + b) * c", "a AND (b OR c)", "a - b - c", "(a - (b - c))", "f(a + b, (c)) * 2"}
+	ops := []string{"+", "-", "*", "/", "AND", "OR", "=", "<", "%", "|"}
+	for i := 0; i < 60; i++ {
+		t := pick(r, []string{"a", "(a)", "1"})
+		for j := 0; j < 1+r.intn(5); j++ {
+			t += " " + pick(r, ops) + " " + pick(r, []string{"b", "c", "(d + e)", "(f)", "2"})
+		}
+		texts = append(texts, t)
+	}
+	for round := 0; round < 2; round++ {
+		for _, t := range texts {
+			e1, err := influxql.ParseExpr(t)
+			if err != nil {
+				continue
+			}
+			want := exprSexp(e1)
+			// rewrite the first result in place, the ways a caller does
+			safely(func() {
+				influxql.WalkFunc(e1, func(n influxql.Node) {
+					if b, ok := n.(*influxql.BinaryExpr); ok {
+						if p, ok := b.LHS.(*influxql.ParenExpr); ok {
+							b.LHS = p.Expr
+						}
+						if p, ok := b.RHS.(*influxql.ParenExpr); ok {
+							b.RHS = p.Expr
+						}
+						b.LHS, b.RHS = b.RHS, b.LHS
+						if b.Op == influxql.ADD {
+							b.Op = influxql.MUL
+						}
+					}
+				})
+			})
+			o.count("fresh-tree")
+			o.checked()
+			e2, err2 := influxql.ParseExpr(t)
+			st, err3 := influxql.ParseStatement("SELECT v FROM m WHERE " + t)
+			rp := map[string]interface{}{"op": "fresh_tree", "text": t}
+			if err2 != nil || exprSexp(e2) != want {
+				o.fail("", fmt.Sprintf("ParseExpr(%q) after the first result was rewritten by its caller gives %v (%v), the text groups as %s", t, e2, err2, want), rp)
+				continue
+			}
+			if err3 == nil {
+				if q, ok := st.(*influxql.SelectStatement); ok && q.Condition != nil && exprSexp(influxql.CloneExpr(q.Condition)) != exprSexp(q.Condition) {
+					o.fail("", fmt.Sprintf("the condition of %q and its clone differ", t), rp)
+				}
+			}
+		}
+	}
+}
+
 func propC03(o *out, r *rng, thorough bool) {
 	tokenTableCase(o)
+	c03FreshTrees(o, r)
 	// exhaustive chains of k operators over all 18 spellings with plain atoms
 	maxK := 3
 	if thorough {
